@@ -9,6 +9,7 @@ import (
 	"testing"
 	"time"
 
+	"gitlab.com/gomidi/midi/v2"
 	"gitlab.com/gomidi/midi/v2/smf"
 	"gitlab.com/gomidi/midi/v2/zverif/ev"
 	"gitlab.com/gomidi/midi/v2/zverif/ref/tempo"
@@ -92,9 +93,16 @@ func run(c Case) (res ev.Result) {
 		}
 		var t smf.Track
 		var a int64
-		for _, n := range notes {
+		for ni, n := range notes {
 			a += int64(n.Delta)
-			t.Add(n.Delta, []byte{0x90 | byte(ti&15), 60, 100})
+			if ni%3 == 1 {
+				// a program change carries the delta, the note follows on the same tick: with a
+				// type filter the note's time must not depend on the filtered-out message
+				t.Add(n.Delta, []byte{0xC0 | byte(ti&15), 5})
+				t.Add(0, []byte{0x90 | byte(ti&15), 60, 100})
+			} else {
+				t.Add(n.Delta, []byte{0x90 | byte(ti&15), 60, 100})
+			}
 			wantEvents = append(wantEvents, absEv{trackNo, a})
 		}
 		// a closing delta, so that the track is longer than its last note
@@ -183,8 +191,11 @@ func run(c Case) (res ev.Result) {
 		var derr error
 		if p := ev.TryTimeout(ev.Watchdog, func() {
 			trd := smf.ReadTracksFrom(bytes.NewReader(buf.Bytes()))
+			if len(c.Queries)%2 == 0 {
+				trd = trd.Only(midi.NoteOnMsg) // every second case: iterate with a type filter
+			}
 			trd.Do(func(te smf.TrackEvent) {
-				if te.Message.IsMeta() {
+				if te.Message.IsMeta() || !te.Message.Is(midi.NoteOnMsg) {
 					return
 				}
 				got = append(got, absEv{te.TrackNo, te.AbsTicks})
@@ -287,7 +298,7 @@ func genCase(t *rapid.T) Case {
 }
 
 var maps = ev.NewCheck("C11", "tempo-maps",
-	"rapid: resolution 1..32767, one tempo track with 0..40 raw FF 51 03 events (microseconds per quarter over 1..2^24-1, biased to extremes), deltas biased to 0 (repeated ticks), first event at tick 0 or later, optional non-tempo metas in between, optional 1..3 further tracks with channel events, placed before and/or after the tempo track; file written and read back; queries = every tempo tick and +-1, random ticks up to min(2^32-1, 8 days of map time); oracle = exact rational integral of the tempo map (120 BPM before the first event, last event at a tick wins): |TimeAt(t) - exact| <= k+1 us (k = distinct-tick segments below t), TimeAt non-decreasing, TracksReader.Do gives AbsTicks per track and AbsMicroSeconds == TimeAt(AbsTicks); non-trivial = a query tick beyond the second tempo segment; distinct by case hash",
+	"rapid: resolution 1..32767, one tempo track with 0..40 raw FF 51 03 events (microseconds per quarter over 1..2^24-1, biased to extremes), deltas biased to 0 (repeated ticks), first event at tick 0 or later, optional non-tempo metas in between, optional 1..3 further tracks with channel events, placed before and/or after the tempo track; file written and read back; queries = every tempo tick and +-1, random ticks up to min(2^32-1, 8 days of map time); oracle = exact rational integral of the tempo map (120 BPM before the first event, last event at a tick wins): |TimeAt(t) - exact| <= k+1 us (k = distinct-tick segments below t), TimeAt non-decreasing, TracksReader.Do (plain, and with an Only(NoteOn) type filter where program changes carry the delta and the note follows on the same tick) gives AbsTicks per track and AbsMicroSeconds == TimeAt(AbsTicks); non-trivial = a query tick beyond the second tempo segment; distinct by case hash",
 	genCase, run)
 
 func TestPropTempoMaps(t *testing.T) { maps.Rapid(t, 3000, 60000) }
